@@ -234,3 +234,71 @@ def materialise(files, outdir):
             continue
         with open(os.path.join(outdir, p), "wb") as f:
             f.write(bytes(b))
+
+
+def order_events(events, decode):
+    """journal -> one record per mutation of a store file, in the vocabulary of CrashOrder.tla.
+    decode(list of bytes) -> list of decoded catalogue records (the store's own decoder)."""
+    import re as _re
+    out, cats = [], []
+    exists = set()
+    for ev in events:
+        k = ev["kind"]
+        if k not in MUTATIONS:
+            continue
+        p = ev["path"]
+        if not is_store_file(p) and not is_store_file(ev.get("to", "")):
+            continue
+        if k == "rename" or (p == "index" and k == "unlink"):
+            out.append({"ev": "other", "what": "%s %s" % (k, p)})
+            continue
+        if p == "index":
+            if k == "open":
+                continue
+            if k == "truncate":
+                out.append({"ev": "cat_truncate", "len": ev["len"]})
+            elif k == "write" and ev["off"] == 0 and len(ev["data"]) == 8:
+                out.append({"ev": "applied"})
+            elif k == "write" and ev["off"] == 8:
+                out.append({"ev": "cat", "_raw": len(cats)})
+                cats.append(bytes(ev["data"]))
+            else:
+                out.append({"ev": "other", "what": "%s index off=%s len=%s" % (k, ev.get("off"), len(ev.get("data", b"")))})
+            continue
+        m = _re.match(r"^(log|snapshot)_(\d+)$", p)
+        fid = int(m.group(2))
+        if m.group(1) == "log":
+            if k == "open":
+                if ev["create"]:
+                    out.append({"ev": "log_open", "id": fid})
+            elif k == "truncate":
+                out.append({"ev": "log_setlen", "id": fid})
+            elif k == "write":
+                out.append({"ev": "log_header" if ev["off"] == 0 else "log_data", "id": fid})
+            elif k == "unlink":
+                out.append({"ev": "log_unlink", "id": fid})
+            else:
+                out.append({"ev": "other", "what": "%s %s" % (k, p)})
+        else:
+            if k == "open":
+                if ev["create"] and p not in exists:
+                    exists.add(p)
+                    out.append({"ev": "snap_create", "id": fid})
+            elif k in ("write", "append"):
+                out.append({"ev": "snap_write", "id": fid})
+            elif k == "unlink":
+                exists.discard(p)
+                out.append({"ev": "snap_unlink", "id": fid})
+            else:
+                out.append({"ev": "other", "what": "%s %s" % (k, p)})
+    dec = decode(cats) if cats else []
+    for o in out:
+        if o["ev"] == "cat":
+            d = dec[o.pop("_raw")]
+            if d.get("res") != "ok":
+                o["ev"] = "other"
+                o["what"] = "catalogue record does not decode: %s" % d.get("err")
+            else:
+                o["logs"] = [{"id": x["id"], "start": x["start"], "count": x["count"], "closed": x["closed"]} for x in d["logs"]]
+                o["snaps"] = [{"id": x["id"], "end": x["end"]} for x in d["snaps"]]
+    return out
